@@ -65,7 +65,26 @@ def contracts(chk, repo, clause_b, clause_d, clause_e, clause_i, clause_conserve
            ', '.join(f'{k}={fmt(v)}' for k, v in sb.items() if k != 'self'), shift_ev)
         shift = shift_ev.result
         fix_shift = nf.app('fix', shift)
-        if 'mask' in label and 'no mask' not in label:
+        if 'mask' in label and 'no mask' not in label and not (fl.ev['propagate._mask_shape'] and fl.ev['propagate._mask_shift']):
+            # the helpers are gone (merged / inlined): compare the window itself with the bounding box of the mask
+            bnd = [e for e in fl.events if e.kind == 'call' and e.data.get('callee') == 'util.boundary'
+                   and nf.strip_apps(e.bound.get('x')) == S('mask')]
+            verdict, det_w = None, 'undecided: the window is not obtained through _mask_shape / _mask_shift nor from boundary(mask)'
+            if bnd:
+                bq = [nf.index(bnd[0].result, C(i)) for i in range(4)]
+                ms_ = nf.attr(nf.strip_apps(bnd[0].bound.get('x')), 'shape')
+                HALF = lambda x: nf.floor(x / 2)
+                want_shape = Tup([bq[1] - bq[0] + 1, bq[3] - bq[2] + 1])
+                want_shift = Tup([bq[0] + HALF(bq[1] - bq[0] + 1) - HALF(nf.index(ms_, C(0))),
+                                  bq[2] + HALF(bq[3] - bq[2] + 1) - HALF(nf.index(ms_, C(1)))])
+                gs, gh = e_out.bound['shape'], e_out.bound['shift']
+                same = isinstance(gs, Tup) and isinstance(gh, Tup) and list(gs.items) == list(want_shape.items) and \
+                    list(gh.items) == list(want_shift.items)
+                thr = bnd[0].bound.get('threshold')
+                verdict = bool(same) and (thr is None or (isinstance(thr, Poly) and thr.is_zero()))
+                det_w = f'array_extent({fmt(gs)[:100]}, {fmt(gh)[:100]})'
+            chk.ob(clause_b, 'D-contract', f.key, f'output window = bounding box of the mask [{label}]', verdict, det_w, f.loc(e_out.node))
+        elif 'mask' in label and 'no mask' not in label:
             ms, mh = fl.one('propagate._mask_shape'), fl.one('propagate._mask_shift')
             ob('output window = bounding box of the mask',
                e_out.bound['shape'] == ms.result and e_out.bound['shift'] == mh.result
@@ -207,7 +226,8 @@ def run(chk, repo, tier):
     from .c04 import tilt_chain
     tilt_chain(chk, repo, 'C02-c')
     X.extent_identities(chk, repo, 'C02-f')
-    X.mask_window_identities(chk, repo, 'C02-f')
+    with chk.guard(['C02-f'], 'propagate._mask_shift', 'mask window helpers recognisable'):
+        X.mask_window_identities(chk, repo, 'C02-f')
     from .common import Remap
     from .c20 import reduce_rules
     reduce_rules(Remap(chk, {'C20-e': 'C02-f'}), repo)
